@@ -182,7 +182,15 @@ impl ToTokens for MatchArm<'_> {
         // The behavior of `with_span` makes this safe to do; if the child applied an
         // even-more-specific span, our attempt here will not overwrite that and will only cost
         // us one `if` check.
-        let extractor = quote_spanned!(with_callable.span()=>
+        //
+        // The span only lends its location: names are resolved at the macro's call site, like the
+        // rest of the generated code. A type or path that reaches the receiver through a
+        // `macro_rules!` fragment otherwise carries that macro's hygiene, and the generated local
+        // `__inner` would not be found.
+        let span = with_callable
+            .span()
+            .resolved_at(proc_macro2::Span::call_site());
+        let extractor = quote_spanned!(span=>
         ::darling::export::identity::<fn(&::darling::export::syn::Meta) -> ::darling::Result<_>>(#with_callable)(__inner)
             #post_transform
             .map_err(|e| e.with_span(&__inner).at(#location))
